@@ -555,6 +555,7 @@ type scripted struct {
 	tlsLn, plainLn net.Listener
 	mu             sync.Mutex
 	describes      []string // request URLs of DESCRIBE requests, in order
+	describesTLS   []bool   // whether each of them arrived over TLS
 	onDescribe     func(req *base.Request, overTLS bool) *base.Response
 	onSetup        func(req *base.Request) *base.Response
 	onAnnounce     func(req *base.Request) *base.Response
@@ -625,6 +626,7 @@ func (s *scripted) serve(nc net.Conn, overTLS bool) {
 		case base.Describe:
 			s.mu.Lock()
 			s.describes = append(s.describes, req.URL.String())
+			s.describesTLS = append(s.describesTLS, overTLS)
 			f := s.onDescribe
 			s.mu.Unlock()
 			res = f(req, overTLS)
@@ -832,64 +834,80 @@ func clientRedirects(c *corr.Ctx, s *scripted) {
 		maxLen = 5
 	}
 	for _, startTLS := range []bool{false, true} {
-		for l := 0; l <= maxLen; l++ {
-			for code := 0; code < 1<<l; code++ {
-				chain := make([]bool, l) // true = rtsps
-				toks := ""
-				for i := range chain {
-					chain[i] = code&(1<<i) != 0
-					toks += map[bool]string{false: "r", true: "s"}[chain[i]]
-				}
-				if toks == "" {
-					toks = "-"
-				}
-				in := map[string]any{"kind": "client", "what": "redirect", "start_tls": startTLS, "chain": toks}
-				s.mu.Lock()
-				s.describes = nil
-				s.onDescribe = func(req *base.Request, _ bool) *base.Response {
-					var hop int
-					if _, err := fmt.Sscanf(req.URL.Path, "/hop%d", &hop); err != nil || hop >= len(chain) {
-						return &base.Response{StatusCode: base.StatusNotFound}
-					}
-					codes := []base.StatusCode{base.StatusMovedPermanently, base.StatusFound, 303, base.StatusUseProxy}
-					return &base.Response{StatusCode: codes[hop%len(codes)], Header: base.Header{
-						"Location": base.HeaderValue{fmt.Sprintf("%s://%s/hop%d", schemeOf(chain[hop]), s.addr(chain[hop]), hop+1)},
-					}}
-				}
-				s.mu.Unlock()
-				cl := newClient(schemeOf(startTLS), s.addr(startTLS), nil)
-				if err := cl.Start(); err != nil {
-					c.Note("redirect start: " + err.Error())
+		// the scheme written in the request URL may differ from the scheme of the connection
+		// (Client.Scheme): the downgrade check must look at the connection
+		for _, urlOther := range []bool{false, true} {
+			for l := 0; l <= maxLen; l++ {
+				if urlOther && l > 3 {
 					continue
 				}
-				u, _ := base.ParseURL(schemeOf(startTLS) + "://" + s.addr(startTLS) + "/hop0")
-				_, _, derr := cl.Describe(u)
-				final := cl.Scheme
-				cl.Close()
-				s.mu.Lock()
-				nd := len(s.describes)
-				seen := append([]string{}, s.describes...)
-				s.mu.Unlock()
-				refused := "-"
-				if nd <= l { // the Location of hop nd-1 was not followed
-					refused = strconv.Itoa(nd - 1)
-				}
-				impl := fmt.Sprintf("%s %s", map[string]string{"rtsp": "r", "rtsps": "s"}[final], refused)
-				// property oracle: once on rtsps never a request on rtsp
-				onTLS := startTLS
-				for _, d := range seen {
-					if strings.HasPrefix(d, "rtsps://") {
-						onTLS = true
-					} else if onTLS {
-						cviol(c, "the client refuses a redirect from rtsps to rtsp", "sec-client-downgrade", in, "DESCRIBE sent over rtsp after rtsps: "+d)
+				for code := 0; code < 1<<l; code++ {
+					chain := make([]bool, l) // true = rtsps
+					toks := ""
+					for i := range chain {
+						chain[i] = code&(1<<i) != 0
+						toks += map[bool]string{false: "r", true: "s"}[chain[i]]
 					}
+					if toks == "" {
+						toks = "-"
+					}
+					urlTLS := startTLS != urlOther
+					in := map[string]any{"kind": "client", "what": "redirect", "client_scheme": schemeOf(startTLS), "url_scheme": schemeOf(urlTLS), "chain": toks}
+					s.mu.Lock()
+					s.describes, s.describesTLS = nil, nil
+					s.onDescribe = func(req *base.Request, _ bool) *base.Response {
+						var hop int
+						if _, err := fmt.Sscanf(req.URL.Path, "/hop%d", &hop); err != nil || hop >= len(chain) {
+							return &base.Response{StatusCode: base.StatusNotFound}
+						}
+						codes := []base.StatusCode{base.StatusMovedPermanently, base.StatusFound, 303, base.StatusUseProxy}
+						return &base.Response{StatusCode: codes[hop%len(codes)], Header: base.Header{
+							"Location": base.HeaderValue{fmt.Sprintf("%s://%s/hop%d", schemeOf(chain[hop]), s.addr(chain[hop]), hop+1)},
+						}}
+					}
+					s.mu.Unlock()
+					cl := newClient(schemeOf(startTLS), s.addr(startTLS), nil)
+					if err := cl.Start(); err != nil {
+						c.Note("redirect start: " + err.Error())
+						continue
+					}
+					u, _ := base.ParseURL(schemeOf(urlTLS) + "://" + s.addr(startTLS) + "/hop0")
+					_, _, derr := cl.Describe(u)
+					final := cl.Scheme
+					cl.Close()
+					s.mu.Lock()
+					nd := len(s.describes)
+					seen := append([]string{}, s.describes...)
+					seenTLS := append([]bool{}, s.describesTLS...)
+					s.mu.Unlock()
+					refused := "-"
+					if nd <= l { // the Location of hop nd-1 was not followed
+						refused = strconv.Itoa(nd - 1)
+					}
+					impl := fmt.Sprintf("%s %s", map[string]string{"rtsp": "r", "rtsps": "s"}[final], refused)
+					// property oracle: once a connection of this client was TLS, no later request goes out in clear
+					onTLS := false
+					for i, d := range seen {
+						if seenTLS[i] {
+							onTLS = true
+						} else if onTLS {
+							cviol(c, "the client refuses a redirect from rtsps to rtsp (once on TLS, no later request in clear)", "sec-client-downgrade", in,
+								fmt.Sprintf("request #%d (%s) was sent in clear after a request over TLS", i+1, d))
+						}
+					}
+					if nd > 0 && seenTLS[0] != startTLS {
+						cviol(c, "the connection uses Client.Scheme", "sec-client-scheme", in, "first request over the wrong kind of connection")
+					}
+					if derr == nil {
+						c.Note("redirect: describe succeeded unexpectedly")
+					}
+					c.Dist("redirect-" + map[bool]string{true: "refused", false: "followed"}[refused != "-"])
+					if urlOther {
+						c.Dist("redirect-url-scheme-differs")
+					}
+					c.Add(corr.Case{Name: fmt.Sprintf("redirect-%v-%v-%s", startTLS, urlOther, toks), Ops: []string{fmt.Sprintf("sec redirect %s %s", map[bool]string{false: "r", true: "s"}[startTLS], toks)},
+						Impl: []string{impl}, Nontrivial: l > 0})
 				}
-				if derr == nil {
-					c.Note("redirect: describe succeeded unexpectedly")
-				}
-				c.Dist("redirect-" + map[bool]string{true: "refused", false: "followed"}[refused != "-"])
-				c.Add(corr.Case{Name: fmt.Sprintf("redirect-%v-%s", startTLS, toks), Ops: []string{fmt.Sprintf("sec redirect %s %s", map[bool]string{false: "r", true: "s"}[startTLS], toks)},
-					Impl: []string{impl}, Nontrivial: l > 0})
 			}
 		}
 	}
